@@ -280,7 +280,7 @@ func checkBranchesTrim(p *load.Program, r *kit.Report) {
 		if fl, _ := kit.LoadedField(b.X); fl != phF {
 			return false, false
 		}
-		return cmpMatches(lin, c, lin.Of(b.X).Sub(kit.LinAtom("p:height")), 0)
+		return cmpMatches(lin, c, lin.Of(b.X).Sub(pAtom(f, 2)), 0)
 	}) {
 		_ = g
 		bad = ""
